@@ -1,5 +1,5 @@
 """C08 -- only vars and explicitly passed pointers can be mutated."""
-from rules import hirq, mirq, flagstate
+from rules import hirq, mirq, flagstate, visit
 from rules.core import walk, norm_path, AnchorMissing
 
 LEVEL = "other"
@@ -245,6 +245,24 @@ def r5_hint_codes(run, F):
         run.ob("R5-CODES", v, rows.get(v) == c, F.where(code), "Error::%s must have code %d (found %s)" % (v, c, rows.get(v)))
 
 
+def r6_visit(run, F):
+    """T2: the mutability analyzer reaches every Expression / Reference of a function (an unvisited child is an unchecked mutation or address-of)."""
+    C = F.lib
+    rel = visit.type_closure(C, {"alpha::common::Expression", "alpha::common::Reference"})
+    impls = [b for b in C.bodies.values() if b.get("impl_trait") == "alpha::analyzer::mutability::Analyzable" and "{closure" not in b["npath"]]
+    run.require(len(impls) >= 10, "mutability Analyzable impls not found (%d)" % len(impls))
+    exceptions = {"Declaration::Constant.value": "constants are covered by the constness analyzer, which rejects mutation and addresses in constant expressions (comment in the source)"}
+
+    def is_trav(c):
+        return c.endswith("mutability::Analyzable>::analyze") or c == "alpha::analyzer::mutability::Analyzable::analyze"
+    n = 0
+    for b in impls:
+        def rep(key, ok, where, detail, sample):
+            run.ob("R6-MUTABILITY-VISITS", key, ok, where, detail + ": assignments and `&` inside it are never checked for mutability (E530)", sample)
+        n += visit.check_impl(F, C, b, rel, is_trav, rep, exceptions=exceptions)
+    run.require(n >= 25, "too few visit obligations (%d)" % n)
+
+
 def check(run):
     F = run.facts("B")
     r1_bits(run, F)
@@ -252,9 +270,10 @@ def check(run):
     r3_checked_mutation(run, F)
     r4_copies(run, F)
     r5_hint_codes(run, F)
+    r6_visit(run, F)
     if run.tier == "thorough":
         FA = run.facts("A")
         run.key_prefix = "cfgA:"
-        for fn in (r1_bits, r2_outer, r3_checked_mutation, r4_copies, r5_hint_codes):
+        for fn in (r1_bits, r2_outer, r3_checked_mutation, r4_copies, r5_hint_codes, r6_visit):
             fn(run, FA)
         run.key_prefix = ""
